@@ -494,7 +494,7 @@ func c07Judge(cs c07Case, evs []c07Ev) (ds []disc, overlapping bool) {
 				}
 			}
 		}
-		res := porcupine.CheckOperationsTimeout(c07Model, ops, 20*time.Second)
+		res := porcupine.CheckOperationsTimeout(c07Model, ops, 60*time.Second)
 		switch res {
 		case porcupine.Illegal:
 			fail("not-linearizable", "the history of key %s (%d operations) has no linearization: %s", k, len(ops), c07Describe(ops))
@@ -1206,7 +1206,7 @@ func c07Run(t *testing.T, c *evid.Collector) {
 		for _, d := range ds {
 			if strings.HasPrefix(d.Kind, "inconclusive:") {
 				inconclusive = true
-				c.Inconclusive(d.Detail)
+				c.Unjudged(d.Detail)
 				continue
 			}
 			real = append(real, d)
@@ -1216,7 +1216,7 @@ func c07Run(t *testing.T, c *evid.Collector) {
 			labels = append(labels, "overlapping-ops-on-one-key")
 		}
 		if inconclusive {
-			labels = append(labels, "inconclusive")
+			labels = append(labels, "unjudged")
 		}
 		c.Case(evid.FP(check, mustJSON(cs)), nt, func() interface{} { return cs }, labels...)
 		rp := c07Replayable{Case: cs}
@@ -1325,7 +1325,7 @@ func c07RunBucket(c *evid.Collector, kinds []backends.Kind) {
 				var real []disc
 				for _, d := range ds {
 					if strings.HasPrefix(d.Kind, "inconclusive:") {
-						c.Inconclusive(d.Detail)
+						c.Unjudged(d.Detail)
 						continue
 					}
 					real = append(real, d)
@@ -1351,7 +1351,7 @@ func c07RunMpu(t *testing.T, c *evid.Collector, kinds []backends.Kind) {
 		var real []disc
 		for _, d := range ds {
 			if strings.HasPrefix(d.Kind, "inconclusive:") {
-				c.Inconclusive(d.Detail)
+				c.Unjudged(d.Detail)
 				continue
 			}
 			real = append(real, d)
